@@ -101,7 +101,9 @@ def gen_cases(tier, seed):
         add(f"varint-enc {v}")
         add("reader L " + ref_varint(v).hex() + "4142 vi u1")
     # strings
-    strs = ["", "A", "héllo", "€uro", "😀", "a" * 127, "b" * 128, "c" * 300, "\x00x"]
+    strs = ["", "A", "héllo", "€uro", "😀", "a" * 127, "b" * 128, "c" * 300, "\x00x",
+            # around every length a width or a documented limit suggests (bytes, not characters)
+            "d" * 16383, "e" * 16384, "f" * 32767, "g" * 32768, "h" * 65535, "i" * 65536, "€" * 10923, "€" * 20000, "j" * 100000, "😀" * 8192]
     for s in strs:
         b = s.encode()
         add("mcstr-enc " + (b.hex() or "-"))
@@ -124,6 +126,32 @@ def gen_cases(tier, seed):
 
 
 # ---- the property itself, evaluated on the implementation's output (independent of the Lean model)
+
+def ref_vs(data, pos):
+    """reference reader of a Minecraft string (the protocol page: a VarInt byte count, then that many bytes of UTF-8; no
+    other limit applies to the byte count than the packet itself): (text bytes, end position) or None when not decodable"""
+    res, j = 0, pos
+    for r in range(5):
+        if j >= len(data):
+            return None
+        b = data[j]
+        j += 1
+        res |= (b & 0x7f) << (7 * r)
+        if r == 4 and (b & 0xf0):
+            return None
+        if not (b & 0x80):
+            break
+    else:
+        return None
+    if res >= 2**31 or j + res > len(data):
+        return None
+    text = data[j:j + res]
+    try:
+        text.decode("utf-8")
+    except UnicodeDecodeError:
+        return None
+    return text, j + res
+
 
 def ref_check_reader(case, impl):
     """Reference semantics of the property statement for the fixed-width reads, cursor moves and
@@ -162,6 +190,8 @@ def ref_check_reader(case, impl):
                         break
                 if res_ok:
                     fails.append(("varint-rejects-valid", f"vi at {pos} of {hexs}: valid encoding rejected: {o}"))
+            elif op == "vs" and ref_vs(data, pos) is not None:
+                fails.append(("mcstring-rejects-valid", f"vs at {pos} of a packet of {len(data)} bytes ({hexs[:40]}…): a well-formed string of {len(ref_vs(data, pos)[0])} bytes rejected: {o}"))
             break
         body, _, at = o.rpartition("@")
         p2, _, rem = at.partition("/")
@@ -248,6 +278,13 @@ def ref_check_reader(case, impl):
                     fails.append(("reader-utf16", f"{op} at {pos} of {hexs}: expected x{sb.hex()} ending at {end}, got {o}"))
             elif ok:
                 fails.append(("reader-utf16-invalid", f"{op} at {pos} of {hexs}: invalid UTF-16 accepted: {o}"))
+        elif head == "vs":
+            r = ref_vs(data, pos)
+            if r is None:
+                if ok:
+                    fails.append(("mcstring-accepts-invalid", f"vs at {pos} of {hexs[:60]}: not a well-formed string, accepted: {o[:80]}"))
+            elif not ok or val != "x" + r[0].hex() or p2 != r[1]:
+                fails.append(("mcstring-decode", f"vs at {pos} of {hexs[:60]}…: expected {len(r[0])} bytes ending at {r[1]}, got {o[:80]}"))
         elif head == "vi":
             # reference VarInt decoder (Minecraft rule)
             res, shift, j, err = 0, 0, pos, None
